@@ -123,7 +123,7 @@ pub fn run(args: &Args) -> ! {
             }
         }
     }
-    let n = ctx.tier.pick(400, 6_000);
+    let n = ctx.tier.pick(2_000, 6_000);
     let opts = GenOpts { big: true, ..GenOpts::default() };
     let tapes = pt::draw(ctx.seed, "c10", &(prop::collection::vec(any::<u32>(), 0..500), 0u8..3), n);
     let tapes = &tapes;
@@ -161,7 +161,7 @@ pub fn run(args: &Args) -> ! {
     ctx.merge(accs, "c10-text");
     ctx.section("widths", json!({"every_width_from_0_to": 200, "plus": ["1000", "usize::MAX"], "definitions": n}));
     // a shrinking run on top (proptest) so that a failure is minimised
-    let small = ctx.tier.pick(150, 2_000);
+    let small = ctx.tier.pick(600, 2_000);
     let r = pt::check(&mut ctx, "c10-shrink", small, (prop::collection::vec(any::<u32>(), 0..300), 0u8..3), |ctx, (tape, level)| {
         let (text, intended) = build(tape, *level, &opts);
         let l = check_format(&text, Some(&intended), &[0, 20, 40, 60, 80, 120, usize::MAX])?;
@@ -175,7 +175,7 @@ pub fn run(args: &Args) -> ! {
     }
     // command-line tool on a sample
     let scratch = vl_model::sock::Scratch::new("c10");
-    let k = ctx.tier.pick(12, 200);
+    let k = ctx.tier.pick(40, 200);
     let mut ran = 0;
     for (i, (tape, level)) in tapes.iter().take(k).enumerate() {
         let (text, _) = build(tape, *level, &opts);
